@@ -21,7 +21,11 @@ structure CacheInv (k : Kernel) : Prop where
   e : CacheInvE k
   f : CacheInvF k
 
-/-- array lengths agree with the counts (the `WF` length part) -/
+/-- every column of a tracker has `n` slots -/
+def ColsLen (cs : List Col) (n : Nat) : Prop := ∀ c ∈ cs, c.vals.length = n
+
+/-- array lengths agree with the counts (the `WF` length part): flag arrays, enabled caches
+    and every property column have exactly one slot per entity slot -/
 structure LenInv (k : Kernel) : Prop where
   vDel : k.vDel.length = k.nV
   eDel : k.eDel.length = k.nE
@@ -30,12 +34,12 @@ structure LenInv (k : Kernel) : Prop where
   outHes : k.vBU = true → k.outHes.length = k.nV
   incHfs : k.eBU = true → k.incHfs.length = k.nHE
   incCell : k.fBU = true → k.incCell.length = k.nHF
-  pv : ∀ c ∈ k.props.v, c.vals.length = k.nV
-  pe : ∀ c ∈ k.props.e, c.vals.length = k.nE
-  phe : ∀ c ∈ k.props.he, c.vals.length = k.nHE
-  pf : ∀ c ∈ k.props.f, c.vals.length = k.nF
-  phf : ∀ c ∈ k.props.hf, c.vals.length = k.nHF
-  pc : ∀ c ∈ k.props.c, c.vals.length = k.nC
+  pv : ColsLen k.props.v k.nV
+  pe : ColsLen k.props.e k.nE
+  phe : ColsLen k.props.he k.nHE
+  pf : ColsLen k.props.f k.nF
+  phf : ColsLen k.props.hf k.nHF
+  pc : ColsLen k.props.c k.nC
 
 theorem cacheInv_empty : CacheInv ({} : Kernel) := by
   refine ⟨?_, ?_, ?_⟩
@@ -44,7 +48,7 @@ theorem cacheInv_empty : CacheInv ({} : Kernel) := by
   · intro _; exact ⟨rfl, fun v hv => absurd hv (by simp [nHF])⟩
 
 theorem lenInv_empty : LenInv ({} : Kernel) := by
-  constructor <;> simp [nE, nF, nC, nHE, nHF]
+  constructor <;> simp [nE, nF, nC, nHE, nHF, ColsLen]
 
 end Kernel
 end OVM
